@@ -60,6 +60,7 @@ type OpEngine struct {
 	concreteSizes     bool
 	atomSize          map[string]int64
 	ConcreteFallbacks int
+	PathBudgetHits    int               // labelled instances whose path enumeration was cut at the budget
 	leafAlias         map[string]string // exact-tie cases: elements of tensor key equal those of tensor value
 	PiecewiseProofs   int               // comparisons decided by region-wise equality of indicator expressions
 	LoopCuts          int               // paths abandoned by bounded loop unrolling
